@@ -236,13 +236,50 @@ def rule_schema_gate(ctx):
         ctx.ob(R, "canonical::check before Ok", ok, "code generation succeeds only for schemas that passed the canonical-encoding check" if ok else "generate can succeed without canonical::check", f.loc())
 
 
+def _plumbing():
+    """std container / iterator / Option / Result plumbing whose documented semantics preserve every element and its
+    order (building, traversing, mapping 1:1, propagating errors). Deliberately absent: anything that selects, drops,
+    reorders, defaults or normalises (filter, take, skip, rev, sort*, dedup*, truncate, retain, first/last/get, unwrap_or*,
+    to_canonical/to_ipv4*, trim*, to_lowercase ...) - those stay subject to review through tables/codec_api.json."""
+    out = set()
+    for c, ms in {
+        "std::vec::Vec": "new with_capacity push len is_empty iter iter_mut as_slice extend extend_from_slice reserve capacity into_boxed_slice",
+        "[T]": "iter iter_mut len is_empty to_vec into_vec",
+        "std::collections::BTreeMap": "new insert len is_empty iter iter_mut keys values into_keys into_values",
+        "std::collections::HashMap": "new with_capacity insert len is_empty iter iter_mut keys values into_keys into_values",
+        "std::collections::BTreeSet": "new insert len is_empty iter",
+        "std::collections::HashSet": "new with_capacity insert len is_empty iter",
+        "std::collections::VecDeque": "new with_capacity push_back len is_empty iter",
+        "std::iter::Iterator": "next map zip unzip collect enumerate cloned copied by_ref for_each try_for_each size_hint",
+        "std::iter::IntoIterator": "into_iter",
+        "std::iter::Extend": "extend",
+        "std::iter::FromIterator": "from_iter",
+        "std::option::Option": "as_ref as_mut as_deref map is_some is_none ok_or ok_or_else transpose cloned copied and_then",
+        "std::result::Result": "map map_err and_then is_ok is_err as_ref",
+        "std::clone::Clone": "clone",
+        "std::ops::Deref": "deref",
+        "std::ops::DerefMut": "deref_mut",
+        "std::ops::Try": "branch from_output",
+        "std::ops::FromResidual": "from_residual",
+        "std::convert::AsRef": "as_ref",
+        "std::borrow::Borrow": "borrow",
+        "std::boxed::Box": "new",
+        "std::sync::Arc": "new",
+        "std::string::String": "new len as_str clone",
+        "std::hint": "must_use",
+    }.items():
+        for m in ms.split():
+            out.add(c + "::" + m)
+    return out
+
+
 def rule_codec_api(ctx):
     R = "C09.7"
     ctx.rule(R, "codec API census: the external functions called by read()/build() implementations (and their closures) are exactly the reviewed, value-preserving conversions (tables/codec_api.json); a new conversion in a decoder or encoder is reported")
     tab = ctx.table("codec_api.json")
     n = 0
     for kind in ("read", "build"):
-        allowed = set(tab[kind])
+        allowed = set(tab[kind]) | _plumbing()
         seen = {}
         for g in impls(ctx, kind):
             for h in family(ctx, g):
